@@ -64,6 +64,7 @@ type pathState struct {
 	aborted      bool
 	replay       *replayInput
 	goroutines   int
+	mapOrderDecided, mapRev bool
 }
 
 // replayInput drives an engine-concrete replay of a recorded counterexample.
